@@ -138,7 +138,7 @@ class Sim:
     def env(self, role, gated=True, plan=None, extra=None, gatecls=None):
         e = shim.env(clock=self.clock, log=self.logfile, trace=self.trace, plan=plan, count=self.count, role=role,
                      gate=self.gatepath if gated else None,
-                     gatecls=gatecls or ("ms" if self.gate_m else "s"), gateprog=self.gate_progs, datacap=256)
+                     gatecls=gatecls or ("mso" if self.gate_m else "s"), gateprog=self.gate_progs, datacap=256)
         if self.qq_tee and role.startswith("send"):
             e["QMAILQUEUE"] = os.path.join(core.VERIF, "bin", "qq-rec")
             e["NQV_REC"] = self.rec
